@@ -335,13 +335,17 @@ def run_sync(case):
     from cflib.crazyflie.syncLogger import SyncLogger
     out = Outcome()
     spec = make_spec({'version': 10, 'toc_types': [7, 1, 5, 8, 3]})
-    with SimEnv(spec, Net(), case.get('schedule'), horizon=200.0) as env:
+    with SimEnv(spec, Net(delays=[0.0]) if case.get('eager') else Net(), None if case.get('eager') else case.get('schedule'), horizon=200.0) as env:
         s = env.s
         cf, rec = cfharness.make_cf(env)
         try:
             if not cfharness.connect(env, cf, rec, wait_for='fully_connected', timeout=60.0):
                 out.fail('sync:connect', repr(rec.names()))
                 return out
+            if case.get('eager'):
+                # the schedule of the case applies from here on (the connection itself ran undisturbed)
+                sc = case.get('schedule') or {}
+                s.prefix, s.ci, s.rate = list(sc.get('prefix', [])), 0, float(sc.get('rate', 0.0))
             dev, link = env.device, env.world.links[0]
             confs = []
             for ci in range(case.get('nconf', 1)):
@@ -358,7 +362,33 @@ def run_sync(case):
             kept_sync = []
             state = {'done': False, 'error': None}
 
-            nsess = 2 if (case.get('sessions') == 2 and case['n'] >= 1 and not case['consumer_gap']) else 1
+            nsess = 2 if (case.get('sessions') == 2 and case['n'] >= 1 and not case['consumer_gap'] and not case.get('eager')) else 1
+            delivered = []
+
+            def sample(ci, lc, names, k, tag):
+                blk = env.device.blocks.get(lc.id)
+                body = b''
+                vals = {}
+                for j, ((tb, vid), n) in enumerate(zip(blk['vars'], names)):
+                    sz = TYPES[tb & 0xf][1]
+                    chunk = bytes(((k + 1) * (j + 3 + ci) * 29 + x + tag) & 0xff for x in range(sz))
+                    body += chunk
+                    vals[n] = _ref_decode(tb & 0xf, chunk)
+                # blocks with the same period are sent in the same firmware tick: same time stamp
+                ts = (case['ts0'] + (k + 100 * tag) * 10) & 0xFFFFFF
+                delivered.append((ts, vals, lc.name))
+                return (5, 2, bytes([lc.id, ts & 0xff, (ts >> 8) & 0xff, (ts >> 16) & 0xff]) + body)
+            if case.get('eager'):
+                # the device sends the first sample(s) of a block right behind the acknowledgement of its START command
+                def eager(lnk, req, reps):
+                    res = [(r, None, None) for r in reps]
+                    if req[0] == 5 and req[1] == 1 and req[2][0] == 3 and reps and reps[0][2][2] == 0:
+                        for ci, (lc, names) in enumerate(confs):
+                            if lc.id == req[2][1]:
+                                for e_ in range(case['eager']):
+                                    res.append((sample(ci, lc, names, 40 + e_, 3), None, None))
+                    return res
+                env.world.reply_filter = eager
             gate = {'go': False, 'first_done': False}
 
             def consumer():
@@ -384,22 +414,10 @@ def run_sync(case):
                 state['done'] = True
             s.spawn(consumer, 'consumer')
             s.sleep(0.5)
-            delivered = []
 
             def emit(k, tag):
                 for ci, (lc, names) in enumerate(confs):
-                    blk = dev.blocks.get(lc.id)
-                    body = b''
-                    vals = {}
-                    for j, ((tb, vid), n) in enumerate(zip(blk['vars'], names)):
-                        sz = TYPES[tb & 0xf][1]
-                        chunk = bytes(((k + 1) * (j + 3 + ci) * 29 + x + tag) & 0xff for x in range(sz))
-                        body += chunk
-                        vals[n] = _ref_decode(tb & 0xf, chunk)
-                    # blocks with the same period are sent in the same firmware tick: same time stamp
-                    ts = (case['ts0'] + (k + 100 * tag) * 10) & 0xFFFFFF
-                    link.deliver((5, 2, bytes([lc.id, ts & 0xff, (ts >> 8) & 0xff, (ts >> 16) & 0xff]) + body))
-                    delivered.append((ts, vals, lc.name))
+                    link.deliver(sample(ci, lc, names, k, tag))
             for sess in range(nsess):
                 for lc, names in confs:
                     blk = dev.blocks.get(lc.id)
@@ -434,7 +452,8 @@ def run_sync(case):
             out.fail('sync:hang', repr(e)[:300])
             return out
         out.nontrivial = case['n'] >= 2
-        out.feat('samples-%d' % min(case['n'], 3), 'configs-%d' % case.get('nconf', 1), 'sessions-%d' % nsess, 'end-' + case['end'], 'slow-consumer' if case['consumer_gap'] else 'fast-consumer')
+        out.nontrivial = out.nontrivial or bool(case.get('eager'))
+        out.feat('eager-device' if case.get('eager') else 'samples-on-request', 'samples-%d' % min(case['n'], 3), 'configs-%d' % case.get('nconf', 1), 'sessions-%d' % nsess, 'end-' + case['end'], 'slow-consumer' if case['consumer_gap'] else 'fast-consumer')
         if not state['done']:
             out.fail('sync:iterator-does-not-end', 'consumer still blocked after disconnect (%s)' % case['end'])
         if state['error'] is not None:
@@ -507,7 +526,8 @@ def log_case(draw):
 
 sync_case = st.fixed_dictionaries({'vars': st.lists(st.integers(0, 4), min_size=1, max_size=4), 'n': st.integers(0, 8), 'nconf': st.sampled_from([1, 1, 2]), 'sessions': st.sampled_from([1, 2, 2]),
                                    'emit_gap': st.sampled_from([0.0, 0.001, 0.1]), 'consumer_gap': st.sampled_from([0, 0, 0.05, 0.3]),
-                                   'ts0': st.sampled_from([0, 65530, 0xFFFFF0]), 'end': st.sampled_from(['close', 'close', 'fault']), 'schedule': _sched})
+                                   'ts0': st.sampled_from([0, 65530, 0xFFFFF0]), 'end': st.sampled_from(['close', 'close', 'fault']), 'schedule': _sched,
+                                   'eager': st.sampled_from([0, 0, 0, 1, 3])})
 
 
 def directed_cases(tier):
@@ -533,6 +553,26 @@ def directed_cases(tier):
         yield dict(base, toc_types=[1] * 30, readd=False, vars=[{'kind': 'toc', 'idx': i, 'fetch': f} for i, f in enumerate(fetches)], history=short)
 
 
+def big_table_cases(tier):
+    """log tables with more than 255 entries: variables whose index needs the high byte"""
+    short = [{'op': 'start', 'gap': 0.2}, {'op': 'emit', 'seed': 3, 'extreme': False, 'gap': 0.2}, {'op': 'emit', 'seed': 4, 'extreme': True, 'gap': 0.2}]
+    base = {'toc_types': [[7, 1, 2, 3, 4, 5, 6, 8][i % 8] for i in range(600)], 'period_ms': 100, 'ts0': 7, 'readd': False,
+            'schedule': {'prefix': [], 'seed': 0, 'rate': 0.0}}
+    for v in (10, 4):
+        for idxs in ([17, 254, 255, 256, 257], [510, 511, 512, 599, 300], [255], [1, 513, 2, 258]):
+            yield dict(base, version=v, vars=[{'kind': 'toc', 'idx': i, 'fetch': None} for i in idxs], history=short)
+
+
+def eager_sync_cases(tier):
+    """SyncLogger on a device that sends samples right behind the START acknowledgement, replies without latency; one forced thread switch at
+    the k-th scheduling decision after the connection (the dispatcher then runs until it has nothing left to do)"""
+    for nconf in (1, 2):
+        for k in range(0, 60 if tier == 'quick' else 200):
+            for other in (1, 2):
+                yield {'vars': [0, 1], 'n': 2, 'nconf': nconf, 'sessions': 1, 'emit_gap': 0.001, 'consumer_gap': 0, 'ts0': 5, 'end': 'close', 'eager': 2,
+                       'schedule': {'prefix': [0] * k + [other], 'seed': 0, 'rate': 0.0}}
+
+
 def single_preemption_cases(tier):
     """acknowledgements without latency; one forced thread switch at the k-th scheduling decision of a fixed history"""
     base = {'version': 10, 'toc_types': [7, 1, 2, 3, 4, 5, 6, 8, 7, 1] * 3, 'period_ms': 100, 'ts0': 5, 'readd': False, 'delays': [0.0],
@@ -550,6 +590,8 @@ def subchecks(tier):
     return [
         Sub('directed', run_log, cases=directed_cases, distinct_by_construction=True),
         Sub('single-preemptions', run_log, cases=single_preemption_cases, distinct_by_construction=True),
+        Sub('big-tables', run_log, cases=big_table_cases, distinct_by_construction=True),
         Sub('configs', run_log, strategy=log_case(), examples={'quick': 900, 'thorough': 30000}),
         Sub('synclogger', run_sync, strategy=sync_case, examples={'quick': 160, 'thorough': 4000}),
+        Sub('synclogger-eager-device', run_sync, cases=eager_sync_cases, distinct_by_construction=True),
     ]
